@@ -131,6 +131,36 @@ def run(ctx: Ctx) -> None:
                     g.client([c])
             acc.add(g)
     acc.flush("responses")
+    # ---- 4. lines sized around each limit, in every syntactic position, under EVERY single cut (both parsers);
+    #         with unequal limits this puts read boundaries inside lines whose length lies between the two
+    for cn in ("small-equal", "line>field", "line<field", "tiny-buffer-small"):
+        lim = H.LIMIT_CONFIGS[cn]
+        fams = [x for pos in G.LIMIT_POSITIONS for x in G.limit_family(pos, lim.max_line, lim.max_field, lim.max_headers)]
+        fams += [(a, b[:4 * max(lim.max_line, lim.max_field)], c, d) for a, b, c, d in
+                 G.unterminated_family(lim.max_line, lim.max_field, lim.max_headers)]
+        for j, (label, s, cutsets, mode) in enumerate(fams):
+            if ctx.quick and j % 2 == 1 and cn != "line<field" and cn != "line>field":
+                continue
+            g = H.Group(mode, s, lim, src="limit-family", label=f"{label} [{cn}]")
+            g.parse([])
+            for c in G.single_cuts(len(s)) if len(s) <= 700 else ([c] for c in range(1, len(s), 5)):
+                g.parse(c)
+            g.parse(G.byte_at_a_time(len(s)))
+            for cs in cutsets:
+                g.parse(cs)
+            acc.add(g)
+    acc.flush("limit-sized lines")
+    # ---- 5. content-coded bodies with auto-decompression on (gzip, zlib / raw deflate, br, zstd when importable):
+    #         the decoded body must be the plain text and must not depend on the segmentation
+    for mode in ("request", "response"):
+        for i in range(ctx.pick(60, 500)):
+            msgs, plain, label = G.gen_coded_stream(rng, mode)
+            data = G.render(G.flatten(msgs))
+            lim = H.LIMIT_CONFIGS["tiny-read-buffer"] if i % 3 == 2 else H.DEFAULT_LIMITS
+            g = H.Group(mode, data, lim, src="coded-body", label=label, decode=True, expect=plain)
+            _segmentations(ctx, g, rng, False)
+            acc.add(g)
+    acc.flush("coded bodies")
     ctx.extra["clauses_seen"] = acc.stats
     ctx.extra["distinct_outcomes_per_group_histogram"] = {str(a): b for a, b in sorted(acc.hist.items())}
     ctx.evaluations = ctx.traces
